@@ -6,6 +6,21 @@ import os
 HERE = os.path.dirname(os.path.dirname(os.path.abspath(__file__)))
 
 CLAIMS = {
+    "C16": dict(
+        text="Static structural rules on simulator.py: the three window loops (offline chunks, online batches, "
+             "online chunks of a batch) form an ordered exact cover (start affine in the counter or advanced by "
+             "the window size, stop = start + size clamped by the row count, ceil(rows/size) windows, one pair of "
+             "bounds for all per-row arrays); every path through default_evaluator's loop credits exactly one "
+             "reward and uses the observed reward exactly when prediction == decision; the ordered split uses one "
+             "boundary complementarily and the random split pairs unpacking targets with arguments; statistics "
+             "are computed from same-origin arrays, records share one schema, predictions accumulate in order. "
+             "Decides the partition/crediting structure; numerical clauses are not decided. Found and guards the "
+             "repaired non-advancing online chunk window.",
+        note="Trusted: train_test_split returns (train, test) pairs in argument order; slices clamp. Numerical "
+             "conservation laws (train + test = total, min <= mean <= max) are not decided.",
+        technique="AST rule set with path enumeration over statement trees (window cover, exactly-once crediting, "
+                  "operand/target pairing)",
+        ref="DESIGN.md section 3, C16"),
     "C15": dict(
         text="Static sibling equivalence between library and simulator re-implementations (two live fragments of "
              "the tree): neighbour-selection expressions equal after expanding the distance cache through "
